@@ -75,7 +75,16 @@ def _same_maze(a, b):
 
 def _roundtrip(maze, tokspec, form, box=None):
     tok = _tok(tokspec)
-    toks = maze.as_tokens(tok)
+    try:
+        toks = maze.as_tokens(tok)
+    except (PathAbort, Inconclusive):
+        raise
+    except BaseException as e:
+        if not isinstance(e, Exception):
+            raise
+        if box is not None:
+            box["tokens"] = None
+        return f"as_tokens raised {type(e).__name__}: {str(e)[:160]}"
     if box is not None:
         box["tokens"] = list(toks) if isinstance(toks, list) else toks
     if not isinstance(toks, list) or not all(isinstance(x, str) for x in toks):
@@ -101,7 +110,7 @@ def _run_roundtrip(job):
             maze, lat, ends = T.build_sym_maze(ctx, job["maze"])
             box = {}
             msg = _roundtrip(maze, job["tok"], job["form"], box)
-        if msg is None:
+        if msg is None and box.get("tokens") is not None:
             core.validate_path(ctx, box["tokens"], lambda inp: _real_tokens(job, inp), every=job.get("validate_every", 6), what="as_tokens")
         ctx.notes["msg"] = msg
         return [("from_tokens(as_tokens(maze)) is the same maze (kind, connections, start, end, solution)", z3.BoolVal(msg is None))]
